@@ -474,7 +474,11 @@ func (r *Run) frameCheck(fr *Frame, final *State, reach Term, penv *Env, fenv *E
 			if !handled {
 				v := aenv.eval(x.X)
 				if l := r.fieldByName(aenv.st, v, x.Sel); l != nil {
-					get(l.Comp).idxs = append(get(l.Comp).idxs, l.Idx)
+					if l.Kind == LElem {
+						get(l.Comp).idxs = append(get(l.Comp).idxs, l.Base)
+					} else {
+						get(l.Comp).idxs = append(get(l.Comp).idxs, l.Idx)
+					}
 				}
 			}
 		case *EUnary:
